@@ -113,6 +113,11 @@ def gen_crossing(rng, tier, widen):
         if rng.random() < 0.4:
             pk = rng.choice(POL)
             per[pk][d] = _val(rng, pk)
+    if rng.random() < 0.08:
+        # the used degree carries settings of two kinds: exactly one of them must be in force (which one is a convention
+        # left to the correspondence)
+        for pk in rng.sample(POL, 2):
+            per[pk][degree] = _val(rng, pk)
     bauds = [rng.choice([32e9, 64e9, 42e9, 56e9, 90e9]) for _ in range(nch)]
     slots = [math.ceil(b / 12.5e9 + rng.choice([0, 0, 1, 2])) * 12.5e9 for b in bauds]
     f = 191.4e12
@@ -318,11 +323,17 @@ def run_path(case, drv):
         impl_ml = [float(x) for x in np.broadcast_to(impl_ml, (len(freq),))] if impl_ml is not None and len(impl_ml) in (1, len(freq)) else None
         model_ml = None if any(x is None for x in pans['maxloss']) else [b2f(x) for x in pans['maxloss']]
         res.cmp_exact('Roadm.get_impairment[roadm-maxloss]', impl_ml, model_ml)
-        for c_, (a_, b_) in enumerate(zip(model_ml or [], mls)):
-            if abs(a_ - b_) > 1e-12:
+        # monitor: the IMPLEMENTATION's lookup against the profile the configuration selects (a carrier exactly on the
+        # boundary shared by two ranges is left to the correspondence: which of the two applies is a convention)
+        on_edge = [pid is not None and pid >= 3 and float(fr) == SPLIT_HZ for fr in freq]
+        for c_, (a_, b_) in enumerate(zip(impl_ml or [], mls)):
+            if not on_edge[c_] and abs(a_ - b_) > 1e-12:
                 res.fail(f'path loss profile: {ptype} connection {prv.uid} -> {nxt.uid} of {r.uid} uses max loss {a_} dB for '
                          f'carrier {c_}, the selected/default profile says {b_} dB')
                 break
+        if impl_ml is not None:
+            mls = [impl_ml[c_] if on_edge[c_] else mls[c_] for c_ in range(len(mls))]
+        types['carrier_on_range_edge'] += sum(on_edge)
         # correspondence on the whole crossing, with the degree the PATH dictates (next element's uid)
         if r.uid == 'R0':
             node, per = case['node'], case['per']
@@ -363,13 +374,13 @@ def run_path(case, drv):
 
 
 def _own_maxloss(case, f):
-    """independent lookup: first listed frequency range that contains the carrier (both ends inclusive); no ranges: 0"""
+    """independent lookup: the frequency range that contains the carrier; no ranges: 0"""
     if not case['ranges']:
         return 0.0
-    for lo, hi, ml in case['ranges']:
-        if lo <= f <= hi:
-            return ml
-    return None
+    hits = [ml for lo, hi, ml in case['ranges'] if lo <= f <= hi]
+    if len(hits) == 1 or (hits and all(h == hits[0] for h in hits)):
+        return hits[0]
+    return None     # outside every range, or on a boundary shared by two ranges with different loss: not judged here
 
 
 def _one_crossing(case, drv, res, r, freq, baud, slot, pin_dbm, offset, tag):
@@ -389,7 +400,9 @@ def _one_crossing(case, drv, res, r, freq, baud, slot, pin_dbm, offset, tag):
                                                tx_power=perm(pin_w), delta_pdb_per_channel=perm(offset),
                                                slot_width=perm(slot), label='x')
     if [float(x) for x in si.frequency] != [float(x) for x in freq]:
-        res.fail(f'constructor{tag}: carriers not in frequency order after construction')
+        # C07's clause, not C06's: without it the per-channel bookkeeping below is not aligned, so nothing is judged
+        res.mismatch(f'constructor{tag}: carriers not in frequency order after construction')
+        return 0, 0, len(freq)
     ratios_before = (si._signal_ratio.copy(), si._ase_ratio.copy(), si._nli_ratio.copy())
     pin_arr = si.pch.copy()
     # per-carrier path loss: implementation vs model lookup (first matching range) vs own lookup
@@ -408,6 +421,7 @@ def _one_crossing(case, drv, res, r, freq, baud, slot, pin_dbm, offset, tag):
             res.fail(f'path loss lookup{tag}: carrier {i} at {float(si.frequency[i])} Hz gets max loss {a_} dB, its frequency '
                      f'range says {b_} dB', channel=i)
             break
+    maxloss = [a_ if b_ is None else b_ for a_, b_ in zip(impl_ml, maxloss)]
     si = r(si, degree=case['degree'], from_degree=case['from'])
     out = [float(x) for x in si.pch]
     ans = drv.ask('c06.propagate', p=fl(pin_arr), maxloss=fl(maxloss), offset=fl(offset),
@@ -421,34 +435,36 @@ def _one_crossing(case, drv, res, r, freq, baud, slot, pin_dbm, offset, tag):
     # ---- monitor: the property itself, evaluated independently on the implementation's output
     deg = case['degree']
     above = below = 0
+
+    def target(kind, val, i):
+        return val if kind == 'pch' else 10 * math.log10((baud[i] if kind == 'psd' else slot[i]) * val * 1e-9)
+    settings = [(p, case['per'][p][deg]) for p in POL if deg in case['per'][p]]
+    if not settings:
+        settings = [(p, case['node'][p]) for p in POL if p in case['node']]
+    inforce = None     # with two settings on the degree: the one the first channel follows must hold for all channels
     for i in range(len(out)):
-        if deg in case['per']['pch']:
-            t = case['per']['pch'][deg]
-        elif deg in case['per']['psd']:
-            t = 10 * math.log10(baud[i] * case['per']['psd'][deg] * 1e-9)
-        elif deg in case['per']['psw']:
-            t = 10 * math.log10(slot[i] * case['per']['psw'][deg] * 1e-9)
-        elif 'pch' in case['node']:
-            t = case['node']['pch']
-        elif 'psd' in case['node']:
-            t = 10 * math.log10(baud[i] * case['node']['psd'] * 1e-9)
-        else:
-            t = 10 * math.log10(slot[i] * case['node']['psw'] * 1e-9)
         in_dbm = 10 * math.log10(pin_arr[i] * 1e3)
-        exp = min(t + offset[i], in_dbm - maxloss[i])
         got = 10 * math.log10(out[i] * 1e3)
+        exps = [min(target(k_, v_, i) + offset[i], in_dbm - maxloss[i]) for k_, v_ in settings]
+        cands = [j for j in range(len(settings)) if abs(got - exps[j]) <= 1e-6]
+        if inforce is not None:
+            cands = [j for j in cands if j == inforce]
+        t = target(*settings[0], i)
         if t + offset[i] < in_dbm - maxloss[i]:
             above += 1
         else:
             below += 1
-        if abs(got - exp) > 1e-6:
+        if not cands:
+            exp = exps[inforce if inforce is not None else 0]
             res.fail(f'egress power{tag}: channel {i} leaves at {got:.6f} dBm, min(target+offset, in-loss) = {exp:.6f} dBm',
                      cls='unlisted', channel=i)
+        elif len(settings) > 1 and inforce is None and len(cands) == 1:
+            inforce = cands[0]
         if out[i] > pin_arr[i] * (1 + 1e-9):
             res.fail(f'amplifies{tag}: channel {i} leaves with {out[i]} W > {pin_arr[i]} W in', cls='unlisted', channel=i)
     for a, b in zip(ratios_before, (si._signal_ratio, si._ase_ratio, si._nli_ratio)):
         if not np.array_equal(a, b):
-            res.fail('ratios: ROADM changed the signal/ASE/NLI shares', cls='unlisted')
+            res.mismatch('ratios: ROADM changed the signal/ASE/NLI shares (C02 decides that clause)')
     return above, below, len(out)
 
 
@@ -577,26 +593,42 @@ def run_populate(case, drv):
                   per=_per_json(case['per']), degrees=degrees)
     model = None if ans is None else {p: {k: b2f(v) for k, v in ans[p]} for p in POL}
     res.cmp_exact('set_roadm_per_degree_targets', impl, model)
-    # monitor: after design every egress degree has exactly one entry; equal to the node default when the user gave none
+    # monitor: the property itself on a crossing towards every egress degree of the ROADM as the design left it
+    # (how the design stores the resolved targets is the correspondence above, not the property)
     populated = 0
     if impl is None:
         res.fail(f'per-degree targets: design rejected a ROADM whose node target is {node}',
                  cls='unlisted')
     else:
+        from gnpy.core.info import create_arbitrary_spectral_information, ReferenceCarrier
+        from gnpy.core.utils import dbm2watt
+        baud = [32e9, 64e9, 42e9, 32e9]
+        slot = [50e9, 75e9, 62.5e9, 37.5e9]
+        freq = [193.0e12, 193.1e12, 193.2e12, 193.3e12]
+        pin_dbm = [10.0, 10.0, -45.0, 10.0]
+        offs = [0.0, 1.5, 0.0, -2.0]
+        r0.ref_carrier = ReferenceCarrier(baud_rate=32e9, slot_width=50e9)
+        r0.ref_pch_in_dbm['T0'] = 0.0
         for d in degrees:
-            n = sum(1 for p in POL if d in impl[p])
-            if n != 1:
-                res.fail(f'per-degree targets: degree {d} has {n} entries after design')
-            user = any(d in case['per'][p] for p in POL)
+            user = [(p, case['per'][p][d]) for p in POL if d in case['per'][p]]
             if not user:
                 populated += 1
-                kind = next(p for p in POL if node[p] is not None)
-                if impl[kind].get(d) != node[kind]:
-                    res.fail(f'per-degree targets: degree {d} did not receive the node default {kind}={node[kind]}')
-            else:
-                for p in POL:
-                    if d in case['per'][p] and impl[p].get(d) != case['per'][p][d]:
-                        res.fail(f'per-degree targets: user value on degree {d} was changed')
+            kind, val = user[0] if user else next((p, node[p]) for p in POL if node[p] is not None)
+            r0.set_roadm_paths(from_degree='T0', to_degree=d, path_type='add', impairment_id=None)
+            si = create_arbitrary_spectral_information(freq, pch=[float(dbm2watt(x)) for x in pin_dbm], baud_rate=baud,
+                                                       tx_osnr=40.0, tx_power=[float(dbm2watt(x)) for x in pin_dbm],
+                                                       delta_pdb_per_channel=offs, slot_width=slot, label='x')
+            ml = [float(x) for x in np.broadcast_to(r0.get_impairment('roadm-maxloss', si.frequency, 'T0', d), (4,))]
+            si = r0(si, degree=d, from_degree='T0')
+            for i in range(4):
+                t = val if kind == 'pch' else 10 * math.log10((baud[i] if kind == 'psd' else slot[i]) * val * 1e-9)
+                exp = min(t + offs[i], pin_dbm[i] - ml[i])
+                got = 10 * math.log10(float(si.pch[i]) * 1e3)
+                if abs(got - exp) > 1e-6:
+                    res.fail(f'egress power after design: towards {d} ({"degree setting" if user else "node default"} '
+                             f'{kind}={val}) channel {i} leaves at {got:.6f} dBm, min(target+offset, in-loss) = {exp:.6f} dBm',
+                             cls='unlisted')
+                    break
     res.nontrivial = populated > 0
     res.stats.update({'populate': 1, 'populate_degrees': len(degrees), 'populate_defaulted': populated,
                       'populate_zero_dbm': int(node.get('pch') == 0.0)})
